@@ -125,6 +125,24 @@ class ExplorerScriptSsbCompiler:
         """
         After compiling, the components are present in this object's attributes.
 
+        See _compile for the parameters and the exceptions. A script that is nested too deeply for the parser or
+        the compiler is reported as SsbCompilerError.
+        """
+        try:
+            return self._compile(explorerscript_src, file_name, macros_only, original_base_file)
+        except RecursionError as e:
+            self.routine_infos = None
+            self.routine_ops = None
+            self.named_coroutines = None
+            self.source_map = None
+            raise SsbCompilerError(_("The script is nested too deeply.")) from e
+
+    def _compile(
+        self, explorerscript_src: str, file_name: str, macros_only: bool = False, original_base_file: str | None = None
+    ) -> ExplorerScriptSsbCompiler:
+        """
+        After compiling, the components are present in this object's attributes.
+
         file_name is the full path to the file that is being compiled.
         original_base_file is the full path to the file that originally started an import chain. If not given, file_name
         is used.
